@@ -30,6 +30,8 @@ type histOpts struct {
 	retain                 bool   // statement functions retain their parameters (C18)
 	sizes                  bool   // messages with body sizes around the 4 KiB granule and the limit
 	tails                  bool   // grammar-external surplus bytes inside messages (C03)
+	copyForeign            bool   // Terminate/Describe/Close/Bind as the foreign message that aborts a COPY (C13)
+	manyRows               bool   // long results: a row repeated 17-3000 times (E1 sessions)
 	prefix                 string // program-key prefix (distinct per connection in multi-connection cases)
 }
 
@@ -76,6 +78,9 @@ func (g *histGen) genStmt(ext bool) *StmtProg {
 	r := g.r
 	sp := &StmtProg{}
 	ncols := r.PickInt(0, 1, 1, 2, 3, 4)
+	if g.o.manyRows && r.Chance(1, 40) {
+		ncols = r.PickInt(17, 33, 128, 300) // a wide result
+	}
 	sp.Cols = genCols(r, ncols, g.oids())
 	if g.o.retain {
 		sp.Ops = append(sp.Ops, Op{K: "retain"})
@@ -114,7 +119,12 @@ func (g *histGen) genStmt(ext bool) *StmtProg {
 				}
 			}
 		}
-		sp.Ops = append(sp.Ops, Op{K: "row", Row: row})
+		op := Op{K: "row", Row: row}
+		if g.o.manyRows && r.Chance(1, 20) {
+			// a long result: the same row many times
+			op.N = r.PickInt(17, 100, 255, 256, 257, 1000, 3000)
+		}
+		sp.Ops = append(sp.Ops, op)
 		if r.Chance(1, 3) {
 			sp.Ops = append(sp.Ops, Op{K: "written"})
 		}
@@ -177,7 +187,20 @@ func (g *histGen) genCopyStmt() (*StmtProg, []pgwire.FMsg) {
 		seq = append(seq, pgwire.FMsg{K: "f", S1: "client gives up " + r.Ident(3)})
 	case 1:
 		// a non-COPY message aborts the COPY
-		switch r.Intn(4) {
+		nk := 4
+		if g.o.copyForeign {
+			nk = 8
+		}
+		switch r.Intn(nk) {
+		case 4:
+			// Terminate in the middle of the stream: a foreign message like any other
+			seq = append(seq, pgwire.FMsg{K: "X"})
+		case 5:
+			seq = append(seq, pgwire.FMsg{K: "D", Sub: 'S', S1: ""})
+		case 6:
+			seq = append(seq, pgwire.FMsg{K: "C", Sub: 'P', S1: ""})
+		case 7:
+			seq = append(seq, g.genBind("", ""))
 		case 0:
 			seq = append(seq, pgwire.FMsg{K: "Q", S1: g.newKey()})
 		case 1:
@@ -480,6 +503,33 @@ func (g *histGen) unit() {
 				}
 			}})
 		}
+		cs = append(cs, choice{1, func() {
+			// an earlier Parse repeated verbatim (same name, same query text): it is
+			// judged again from scratch, whatever happened to it the first time
+			var ps []pgwire.FMsg
+			for _, m := range g.msgs {
+				if m.K == "P" && isPlain(&m) && len(m.Tail) == 0 {
+					ps = append(ps, m)
+				}
+			}
+			if len(ps) == 0 {
+				return
+			}
+			p := ps[r.Intn(len(ps))]
+			g.add(p)
+			if g.stop {
+				return
+			}
+			switch r.Intn(3) {
+			case 0:
+				g.add(pgwire.FMsg{K: "S"})
+			case 1:
+				pn := g.name(nil, "p")
+				g.add(g.genBind(pn, p.S1), pgwire.FMsg{K: "E", S1: pn}, pgwire.FMsg{K: "S"})
+			case 2:
+				g.add(pgwire.FMsg{K: "D", Sub: 'S', S1: p.S1}, pgwire.FMsg{K: "S"})
+			}
+		}})
 		if g.o.params {
 			cs = append(cs, choice{1, func() {
 				// a statement whose parameters come from ParseParameters(query): gaps,
